@@ -24,6 +24,7 @@ R15.7 constructor options of the calculators are set after the base constructor 
 R15.8 PartialTree.join edits only copies of the receiver's matrix / node / tip lists.
 R15.9 a looked-up distance of 0.0 is not treated as missing (phylo/util.py).
 R15.10 DistanceMatrix.__getitem__ does not write to the matrix it reads (known finding).
+R15.11 _expand reads alias distances from the table it is filling.
 R15.5 closed forms small enough to decide symbolically: the proportion different is (total - trace) / total,
       JC69 is c * log(a + b * p) with (a, b, c) = (1, -4/3, -3/4) and is refused for p >= 3/4 -- extracted
       by folding the function body to an affine form in p with exact rationals (not by running it).
@@ -452,8 +453,27 @@ def r15_10(chk):
     chk.floor("R15.10", 1, "DistanceMatrix.__getitem__")
 
 
+def r15_11(chk):
+    chk.rule("R15.11", "expanding the duplicates reads from the table it is filling: in _PairwiseDistance._expand the mapping asked for the alias's distance (`<map>.get((alias, name))`) is the same mapping the new (add, name) entries are stored into -- the entry for a pair of two redundant sequences only exists once the first of them has been expanded, so reading from an untouched copy of the input leaves None / NaN between any two duplicates")
+    m = chk.repo.module(FD)
+    q = "_PairwiseDistance._expand"
+    fn = m.func(q)
+    stores = {pk[0] for st in walk_no_nested(fn) if isinstance(st, ast.Assign) for t in st.targets for pk in [_pair_key(t)] if pk}
+    reads = {norm(c.func.value) for c in walk_no_nested(fn) if isinstance(c, ast.Call) and isinstance(c.func, ast.Attribute) and c.func.attr == "get" and c.args and isinstance(c.args[0], ast.Tuple)} | {norm(s_.value) for s_ in walk_no_nested(fn) if isinstance(s_, ast.Subscript) and isinstance(s_.ctx, ast.Load) and isinstance(s_.slice, ast.Tuple) and len(s_.slice.elts) == 2}
+    rets = {norm(r.value) for r in walk_no_nested(fn) if isinstance(r, ast.Return) and r.value is not None}
+    k = key(m, q, "reads and writes one table")
+    if not stores or not reads:
+        chk.unresolved("R15.11", k, m.loc(fn), "pair-keyed reads / stores not found")
+        chk.floor("R15.11", 0, "")
+        return
+    ok = reads <= stores and stores <= rets | stores and any(s_ in rets for s_ in stores)
+    chk.decide(ok, "R15.11", k, m.loc(fn), f"reads {sorted(reads)}, stores {sorted(stores)}, returns {sorted(rets)}", f"alias distances are read from {sorted(reads)} but the expanded entries are stored into {sorted(stores)}: with two or more redundant sequences the distance between two of them is never found (None, NaN in the matrix)")
+    chk.floor("R15.11", 1, "_expand")
+
+
 def run(chk):
     r15_1(chk)
+    r15_11(chk)
     r15_9(chk)
     r15_10(chk)
     r15_7(chk)
